@@ -40,3 +40,4 @@ CFG = {'level': 'exploration',
  'assumptions': ['ref/refsemver orders versions correctly (checked against golang.org/x/mod/semver by C04)',
                  'the strict parser reads the formatted result correctly (guarded by C02/C20)',
                  'requested lists have distinct paths and valid versions']}
+CFG['level_text'] += ' A quarter of the go.mod rounds first change the go version on the same structure (AddGoStmt across and around 1.21, including pre-release versions); block order is judged by the version the file then declares.'
